@@ -419,9 +419,9 @@ def run_c10(prop, tier):
                 if sc in ("h1", "h2", "h9"):
                     nw = 0
                     for i, s in enumerate(seq):
-                        if s["sc"] == "write" and not s["args"].startswith(("2,", "-1,")):
+                        if s["sc"] in WRITES + ("sendfile", "copy_file_range") and not s["args"].startswith(("2,", "-1,")):
                             try:
-                                if int(s["args"].rsplit(",", 1)[1]) <= 1:
+                                if s["sc"] in WRITES and int(s["args"].rsplit(",", 1)[1]) <= 1:
                                     continue
                             except ValueError:
                                 pass
